@@ -9,6 +9,8 @@ import (
 	"math/big"
 )
 
+const tokLEQ = token.LEQ
+
 type Mode struct{ BV bool }
 
 func (m Mode) String() string {
